@@ -28,7 +28,7 @@ def expect(ver, text):
         val = float(sc)
     except ValueError:
         return "err\tRHMalformedError", None
-    o, e = obs.construct(ver, vec)
+    o, e = obs.construct(ver, vec, warm=True)
     if o is None:
         return "err\t" + e, None
     if o.scores()[0] == val:
@@ -44,7 +44,7 @@ def run(ctx):
         ver = rng.choice("234")
         seeds.append((ver, core.rand_vector(ver, rng, p_absent=rng.choice([0.3, 0.8]))))
     for ver, s in seeds:
-        o, e = obs.construct(ver, s)
+        o, e = obs.construct(ver, s, warm=True)
         if o is None:
             ctx.violation("v%s:valid-vector-rejected" % ver, "accepted vector rejected", s, "accepted", e, replay={"ver": ver, "text": "0.0/" + s})
             continue
@@ -109,7 +109,7 @@ def replay(data):
     got = core.impl_construct(r["ver"], "", r["text"], rh=True).rstrip("\t")
     ok = want == got
     if r.get("roundtrip"):
-        o, _ = obs.construct(r["ver"], r["roundtrip"])
+        o, _ = obs.construct(r["ver"], r["roundtrip"], warm=True)
         rh = o.rh_vector()
         t10 = int(round(abs(o.scores()[0]) * 10))
         ok = ok and rh == "%d.%d/%s" % (t10 // 10, t10 % 10, o.clean_vector())
